@@ -343,6 +343,9 @@ class Tracer:
         if isinstance(base, DictV):
             if not base.entries:
                 return
+            if len(base.entries) > 2 and len(base.const_keys()) == len(base.entries) and all(isinstance(k, str) for k in base.const_keys()):
+                # a data record (literal string keys) is being iterated as if it were a mapping level
+                self.emit('iterate-record', sorted(base.const_keys()), st)
             for k, v in list(base.entries):
                 bind(k, v)
                 self.block(st.body, env, fr)
@@ -414,6 +417,8 @@ class Tracer:
                 return v
             if isinstance(key, Const) and base.entries and not base.const_keys():
                 self.emit('leaf-subscript', base.txt(), key.value, n)
+            elif isinstance(key, Const) and base.entries and len(base.const_keys()) == len(base.entries) and not base.recursive:
+                self.emit('missing-key', sorted(map(str, base.const_keys())), key.value, n)
             return Ex('%s[%s]' % (base.txt(), key.txt()), base.syms | key.syms)
         if isinstance(base, Tree):
             if isinstance(key, TreeKey):
